@@ -1,4 +1,5 @@
 #!/bin/bash
+# tools/matrix.sh <out-file> [workers]   (MATRIX_OWN=1: only the check of the property the change was aimed at)
 # tools/matrix.sh <out-file> [workers]   (run from a SNAPSHOT: vp run --with-repo -- tools/matrix.sh out.txt)
 # Which checks catch which seeded changes: every seeded patch is applied to the repository
 # snapshot ($VP_RUN_REPO), every check of the same family is run (quick), the snapshot is restored.
@@ -9,12 +10,13 @@ export VERIF_REPO="$REPO"
 interp="C02 C03 C04 C08 C13 C25 C31"; alloc="C12 C13 C14 C03 C04 C25"; serde="C16 C17 C19 C20 C29"; py="C27"
 family() { case "$1" in C02|C03|C08|C25|C31) echo "$interp";; C04) echo "$interp C12";; C12|C13|C14) echo "$alloc";; C16|C17|C19|C20|C29) echo "$serde";; C27) echo "$py";; esac; }
 : > "$OUT"
-for d in seeded/*-agent seeded/*-agent2 seeded/*-agent3; do
+for d in seeded/*-agent seeded/*-agent2 seeded/*-agent3 seeded/*-agent4; do
   [ -f "$d/patch.diff" ] || continue
   id=$(basename "$d"); prop=${id%%-*}
   ( cd "$REPO" && git checkout -q -- . && git apply "$HERE/$d/patch.diff" ) || { echo "$id: patch does not apply" >> "$OUT"; continue; }
   line="$id:"
-  for c in $(family "$prop"); do
+  checks=$(family "$prop"); [ -n "${MATRIX_OWN:-}" ] && checks="$prop"
+  for c in $checks; do
     out=$(./check "$c" quick --no-evidence --workers "$W" 2>&1)
     if echo "$out" | grep -q "^VIOLATION property=$c"; then
       o=$(echo "$out" | grep -m1 '^violation:' | sed 's/.*oracle=\([^ ]*\).*/\1/')
